@@ -738,7 +738,10 @@ Definition free_names (self : bytes) (g : gty) (e : renv) : Prop :=
 
 Definition all_tags : bytes -> bool := fun _ => true.
 
-Definition renders (x : idarg) (g : gty) : Prop := x = IdR (view_of g) \/ x = IdT (view_of g).
+(* x is what ident.Frag receives for the type g: its reflect.Type, its go/types Type, or — for the predeclared
+   any, which go/types represents as an alias — the *types.Alias, which ident.Frag tests for first *)
+Definition renders (x : idarg) (g : gty) : Prop :=
+  x = IdR (view_of g) \/ x = IdT (view_of g) \/ (x = IdAlias (bs "any") /\ g = GAny).
 
 Section Final.
   Variable pick : bytes -> renv -> option bytes.
@@ -753,7 +756,7 @@ Section Final.
 
   Lemma frag_type_lit : forall x g e, renders x g ->
     frag x e = type_lit pick parse_tref self can_backquote true true (view_of g) e.
-  Proof. intros x g e [H|H]; subst; reflexivity. Qed.
+  Proof. intros x g e [H|[H|[H1 H2]]]; subst; reflexivity. Qed.
 
   Lemma main_P : forall (nm_ok : bytes -> Prop),
     (forall p e n, pick p e = Some n -> nm_ok n) ->
